@@ -227,6 +227,8 @@ func TestC08(t *testing.T) {
 		r.Require("books_forged_refused/"+kt, 2)
 		r.Require("books_honest_accepted/"+kt, 2)
 	}
+	r.Require("reused_destination_refused_envelopes", 20)
+	r.Require("reused_destination_books_checked", 20)
 	r.Require("id_identity_extract_ok", 2)
 	r.Require("id_sha256_no_embedded_key", 2)
 	r.Require("id_text_edit_accepted_other_id", 10)
